@@ -1099,3 +1099,31 @@ Qed.
 
 End DetrendProofs.
 Unset Default Proof Using.
+
+(* ---------------------------------------------------------------------- *)
+(* Where all sources of a dead/noisy channel hold the same value, the repaired sample is that value. *)
+Lemma equal_sources_value (F : Type) (O : ops F)
+  (Fth : field_theory (f0 O) (f1 O) (fadd O) (fmul O) (fsub O) (fopp O) (fdiv O) (finv O) eq)
+  (lt_irrefl : forall a, fltb O a a = false)
+  (lt_trans : forall a b c, fltb O a b = true -> fltb O b c = true -> fltb O a c = true)
+  (lt_total : forall a b, fltb O a b = true \/ a = b \/ fltb O b a = true)
+  (lt_add : forall a b c, fltb O a b = true -> fltb O (fadd O a c) (fadd O b c) = true)
+  (lt_mul : forall a b, fltb O (f0 O) a = true -> fltb O (f0 O) b = true -> fltb O (f0 O) (fmul O a b) = true)
+  thr (W : nat -> list F) labels (data : list (list F)) ns i t v :
+  length labels = length data ->
+  (forall p, length (W p) = length data) ->
+  (forall p u, In u (W p) -> fltb O u (f0 O) = false) ->
+  (forall j, (j < length data)%nat -> length (nth j data []) = ns) ->
+  (i < length data)%nat -> is_bad (nth i labels 0) = true -> (t < ns)%nat ->
+  sources O thr labels (W i) <> [] ->
+  (forall j w, In (j, w) (sources O thr labels (W i)) -> nth t (nth j data []) (f0 O) = v) ->
+  nth t (nth i (interpolate O thr W labels data) []) (f0 O) = v.
+Proof.
+  intros Hl HWl HW Hrect Hi Hb Ht Hne Heq.
+  destruct (bad_row_convex F O Fth lt_irrefl lt_trans lt_total lt_add lt_mul thr W labels data ns i
+              Hl HWl HW Hrect Hi Hb) as [_ [_ [_ [_ [_ Hrange]]]]].
+  destruct (Hrange t v v Ht Hne) as [H1 H2].
+  { intros j w Hin. rewrite (Heq j w Hin). split; apply lt_irrefl. }
+  destruct (lt_total (nth t (nth i (interpolate O thr W labels data) []) (f0 O)) v) as [H|[H|H]];
+    [congruence | exact H | congruence].
+Qed.
